@@ -1,6 +1,6 @@
 """Farm: C05, C06 (Farm.tla / FarmTrace.tla / harness/cmd/farm)."""
 import json, os
-from props import ModuleCheck, T
+from props import ModuleCheck, T, bundled
 
 FARM_CLAUSES_C05 = ["C05_StakeSum", "C05_Escrow", "C05_UnstakeNeverFails", "C05_UnstakeExact",
                     "C05_StakeExact", "C05_OthersUntouched", "C05_ScaleExact", "C05_CrisisInvariant",
@@ -38,6 +38,8 @@ FARM_RND = T(
      dict(n=60, len=40, procs=7, cfg=FARM_GOV_CFG),
      dict(n=30, len=40, procs=4, cfg=FARM_GOV_CFG + ",burnpre=1,burnq=1,burnv=0,govdp=1,govvp=3"),
      dict(n=27, len=20, procs=7, cfg=FARM_MAG_CFG), dict(n=27, len=20, procs=5, cfg=FARM_MAG_GOV_CFG)])
+# multi-message transactions (runs of one signer's messages delivered as one real transaction)
+bundled(FARM_RND)
 FARM_GEN_GOV_CFG = "users=2,rdenoms=2,proposers=2,initlp=3,initr=20,prec=10,gov=1"
 FARM_GEN_MAG_CFG = "users=2,rdenoms=1,initlp=3,initr=3000,prec=10"
 FARM_GEN = T([dict(cfg="GEN_Farm.cfg", num=20, depth=15, seeds=10),
@@ -151,7 +153,7 @@ def farm_magnitude_evidence(check, pid, tier, seed, work):
                             "C05_ScaleExact fails on any value not exactly divisible by its factor"}
 
 
-RECORD = [dict(binary="farm", n=T(3, 12), len=25, cfg="users=3,rdenoms=2,initlp=6,initr=60")]
+RECORD = [dict(binary="farm", n=T(3, 12), len=25, cfg="users=3,rdenoms=2,initlp=6,initr=60" + ",bundle=30")]
 
 PROPS = {
     "C05": ModuleCheck("farm", "Farm.tla", "FarmTrace.tla", "FarmTrace.cfg", FARM_CLAUSES_C05,
